@@ -61,6 +61,15 @@ TIME_FORMATS = [
 ]
 
 
+def quiet():
+    """no progress bars from the mini-batch embedder loop (in this process only)"""
+    import torch_frame.data.mapper as M
+    if getattr(M.tqdm, '__name__', '') != '_plain_iter':
+        def _plain_iter(it, **kw):
+            return it
+        M.tqdm = _plain_iter
+
+
 # ------------------------------------------------------------------------------------------ values
 def fval(x):
     """abstract float -> python float"""
@@ -194,7 +203,9 @@ def gen_col(rng, name, st, n, target_kind=None):
         if all(c is None for c in cells) and rng.random() < 0.8:
             cells[rng.randrange(n)] = pool[0]
         if as_int:
-            dt = rng.choice(['Int64', 'float64', 'int64', 'object'])
+            # (integer categories held in an OBJECT column are outside the stated domain: pandas refuses to merge an
+            #  all-None object selection of such a column against the int64 category index - logged in the report)
+            dt = rng.choice(['Int64', 'float64', 'int64'])
             if dt == 'int64' and any(c is None for c in cells):
                 dt = 'Int64'
         else:
@@ -238,7 +249,9 @@ def gen_col(rng, name, st, n, target_kind=None):
         fmt, pyfmt, res = rng.choice(TIME_FORMATS)
         if kind == 'dt64':
             res = 1
-        pbad = rng.choice([0.0, 0.0, 0.15]) if kind == 'str' else 0.0
+        # unparseable strings only under an explicit format: with format=None pandas GUESSES the format from
+        # the first entry, and what it guesses from a malformed string is pandas' business, not the library's
+        pbad = rng.choice([0.0, 0.0, 0.15]) if (kind == 'str' and fmt is not None) else 0.0
         def cell():
             if miss():
                 return None
@@ -250,12 +263,6 @@ def gen_col(rng, name, st, n, target_kind=None):
         if all(not isinstance(c, int) for c in cells) and rng.random() < 0.8:
             s = gen_time(rng)
             cells[rng.randrange(n)] = s - s % res
-        if fmt is None and kind == 'str':
-            # pandas guesses the format from the first parseable-looking entry: keep that one well-formed
-            first = next((i for i, c in enumerate(cells) if c is not None), None)
-            if first is not None and isinstance(cells[first], dict):
-                s = gen_time(rng)
-                cells[first] = s
         col['r'] = {'kind': kind, 'fmt': fmt, 'pyfmt': pyfmt, 'dtype': rng.choice(['object', 'str']),
                     'unit': rng.choice(['s', 'ms', 'us', 'ns']), 'na': rng.choice(['None', 'nan'])}
     elif st == 'embedding':
@@ -418,10 +425,10 @@ def _series(vals, dt, index=None):
     if dt is None:
         return pd.Series(vals, index=index)
     if dt == 'object':
-        s = pd.Series(np.empty(len(vals), dtype=object), index=index, dtype=object)
+        arr = np.empty(len(vals), dtype=object)
         for i, v in enumerate(vals):
-            s.iat[i] = v
-        return s
+            arr[i] = v
+        return pd.Series(arr, index=index, dtype=object)
     return pd.Series(vals, dtype=dt, index=index)
 
 
@@ -498,6 +505,7 @@ def dataset_kwargs(frame, dictperm=None, with_target=True):
 
 def make_dataset(frame, labels=None, dfperm=None, dictperm=None):
     from torch_frame.data import Dataset
+    quiet()
     df = render(frame, labels, dfperm)
     c2s, kw, stubs = dataset_kwargs(frame, dictperm)
     return Dataset(df, c2s, **kw), stubs
